@@ -20,14 +20,14 @@ def register(claim):
           "Python framing (_preprocess_file/_read_batch) is modelled on the bytes of the file (Model/RawFile.lean) and proved at file level (Props/C03File: any name/tag length, batch size, completion order); "
           "on corrupted block chains the model is stricter than the lazily walking reader; file I/O, np.frombuffer and the awkward assembly are compared, not proved.",
           "Lean 4 round-trip theorem (decode (encode x) = x by induction over the nested format) on a hand-written parser model; "
-          "file-level theorem over the byte encoder; three-way correspondence model / native working-tree build / intended decode; byte-level model vs real reader on well-formed and framing-corrupted files", "DESIGN.md §6 C03")
+          "file-level theorem over the byte encoder; three-way correspondence model / native working-tree build / intended decode; byte-level model vs real reader on well-formed and framing-corrupted files; delayed-completion ordering on the real reader; long streams (> 2^16 fragments / words / events) on the native parser against the intended decode", "DESIGN.md §6 C03")
     claim("C04", "proof",
           "Termination of the batch loop within N+2 iterations for every n_blocks in {-1} U N and batch size >= 1; result = decode of the first "
           "min(n, N) blocks for every batch size, every completion order of the pool and every earlier cursor position (hence prefix, "
           "idempotence, batch/worker invariance); selection = projection of the full read (C03b). Real arrays() exercised over a grid with perturbed "
           "completion orders under a watchdog. File level (Props/C03File::file_prefix): reading the first n blocks of the bytes of any well-formed file returns the events of those blocks.",
           K + NAT + "thread interleavings are sampled (seeded sleeps), not enumerated; data-race freedom rests on each call owning its parser (partial for thread-safety).",
-          "Lean 4 theorems on a fuelled loop model + pool-as-permutation model; correspondence against the real reader in a watched child process",
+          "Lean 4 theorems on a fuelled loop model + pool-as-permutation model; correspondence against the real reader in a watched child process; concatenate_raw in list order with repeated / aliased files; really overlapping decode calls (ctypes releases the GIL) compared with sequential decodes in a child process, ThreadSanitizer build in the thorough tier",
           "DESIGN.md §6 C04")
     claim("C05", "proof",
           "36 Lean theorems over BitVec 64 about the kernels regenerated from digi_id.py on every run: decode(encode f) = f "
@@ -42,45 +42,45 @@ def register(claim):
           "Over the reals, for both charges: signed radius = -alpha/kappa, circle centre preserved, curvature and dip unchanged, the new parameters "
           "describe the same BOSS trajectory re-parametrised by the turning angle (same circle, same sense, same z-angle relation), the new "
           "reference point is the point of the circle closest to the new pivot and the momentum is tangent there. Float model tied to object/"
-          "record/array forms; sign convention anchored on reconstructed fixture tracks vs their MDC hits.",
+          "record/array forms; sign convention anchored on reconstructed fixture tracks vs their MDC hits. _change_pivot (object and array path, caller wiring r = self.radius) is translated from helix.py statement by statement on every run (Gen/HelixPy) and proved equal to the model over the reals (Props/HelixTie).",
           K + REAL + "hand-written model Model/Helix.lean mirrors _change_pivot after the fix: commits.",
           "Lean 4 + Mathlib theorems about one polymorphic model (run on Float, proved on R); tolerance-based correspondence; "
-          "trajectory-residual oracle on the implementation; fixture hit residuals", "DESIGN.md §6 C06")
+          "trajectory-residual oracle on the implementation; fixture hit residuals; AST translator (symbolic execution of _change_pivot) + tie theorem translated = model", "DESIGN.md §6 C06")
     claim("C08", "proof",
           "Whole-table kernel evaluation (decide +kernel over all 6796 wires / 6240 crystals / all (layer,wire) and (part,theta,phi) tuples): density, "
           "documented order, both inverse directions, layer_start = cumulative counts, ring starts equal the documented ranges, digi route; "
           "invalid-marker cases symbolically. Tables and kernels regenerated from the working tree and the docs on every run.",
           BV + TR + "documented EMC ring sizes (barrel 44x120 is not in the docs table; taken from the property text).",
           "Lean 4 kernel evaluation over complete finite tables (balanced allBlock + lifting lemma) on generated models; differential vs numba; "
-          "documentation-derived numbering oracle incl. scalar call paths", "DESIGN.md §6 C08, §5.2")
+          "documentation-derived numbering oracle incl. scalar call paths; identifiers with the wire-type flag opposite to the geometry and with undefined bits set; buffers refilled in place between two calls", "DESIGN.md §6 C08, §5.2")
     claim("C10", "proof",
           "Index bound for every 32-bit word (symbolic), totality (invalid marker or own tag), injectivity on mapped entries (certificate-checked), "
           "MDC wire type = geometry stereo class, every wire / crystal has exactly one pre-image, field ranges, equality with the pinned reference - "
           "all over the complete tables as evaluated from the working tree; conversion checked on a real read containing every representable id.",
           K + TR + NAT + "BOSS sources unavailable: 'equals the BOSS map' = equals reference/reid_tables.json (SHA-256 pinned); injectivity certificates "
           "are emitted by the generator and checked in the kernel.",
-          "Lean 4 kernel evaluation over complete tables + certificate lemma; all-ids synthetic raw file through the real reader",
+          "Lean 4 kernel evaluation over complete tables + certificate lemma; all-ids synthetic raw file through the real reader; the same relation through concatenate_raw with decoding passed explicitly; electronics ids returned with decoding disabled compared with the encoded ones",
           "DESIGN.md §6 C10")
     claim("C11", "proof",
           "Over the reals: output in normal form (phi0 in [0,2pi)), identity, (dr,phi0) depend only on the circle and the new pivot (path "
           "independence for any sequence by composition), dz equal up to whole pitches and exactly when the accumulated turning angle stays in "
-          "(-pi,pi], there-and-back restores all five parameters and the error matrix (dphi != pi); error matrices are path independent within half a turn. Chained calls compared in object/record/array form (incl. integer-typed columns).",
+          "(-pi,pi], there-and-back restores all five parameters and the error matrix (dphi != pi); error matrices are path independent within half a turn. Chained calls compared in object/record/array form (incl. integer-typed columns). _change_pivot (object and array path, caller wiring r = self.radius) is translated from helix.py statement by statement on every run (Gen/HelixPy) and proved equal to the model over the reals (Props/HelixTie).",
           K + REAL + "error matrices: J_back J_forth = 1, there-and-back restores E, chain rule J_2 J_1 = J_direct and path independence of E within half a turn are theorems (Props/C11b).",
-          "Lean 4 + Mathlib theorems; chained Float-model correspondence; direct-move / identity / there-and-back oracle", "DESIGN.md §6 C11")
+          "Lean 4 + Mathlib theorems; chained Float-model correspondence; direct-move / identity / there-and-back oracle; AST translator (symbolic execution of _change_pivot) + tie theorem translated = model", "DESIGN.md §6 C11")
     claim("C12", "proof",
           "Implicit-differentiation theorems: along any differentiable family satisfying the defining relations the derivative of (dr', phi0', dz') "
           "is given by exactly the entries the code uses (rows 0,1,3; rows 2,4 identity), for the signed radius; J E J^T is the matrix product, "
           "symmetric / PSD preserved, identity move leaves E unchanged. Implementation compared with a Richardson finite-difference Jacobian of "
-          "its own parameter map; error matrices stored as int64/int32/float32 compared with the float64 result.",
+          "its own parameter map; error matrices stored as int64/int32/float32 compared with the float64 result. _change_pivot (object and array path, caller wiring r = self.radius) is translated from helix.py statement by statement on every run (Gen/HelixPy) and proved equal to the model over the reals (Props/HelixTie).",
           K + REAL + "differentiability of the parameter map itself away from the branch cuts is assumed (the theorem is conditional on a differentiable family).",
-          "Lean 4 + Mathlib (HasDerivAt uniqueness, linear_combination, Matrix.PosSemidef); finite-difference oracle; Float-model correspondence",
+          "Lean 4 + Mathlib (HasDerivAt uniqueness, linear_combination, Matrix.PosSemidef); finite-difference oracle; Float-model correspondence; AST translator (symbolic execution of _change_pivot) + tie theorem translated = model",
           "DESIGN.md §6 C12")
     claim("C13", "proof",
           "Over the reals: documented position (pivot + offset), momentum (pt, azimuth mod 2pi, pz), charge and radius formulas; constructing a helix "
           "from its own reported position, momentum, charge and pivot reproduces it for every pivot, either charge, dr of either sign or zero, phi0 "
-          "anywhere in [0,2pi). Object/record/array forms and the three constructor forms compared.",
+          "anywhere in [0,2pi). Object/record/array forms and the three constructor forms compared. The kernels (dr_phi0_to_x/y, phi0_to_phi, kappa_to_pt/charge/radius, _fix_dr_sign), the position / momentum / charge / radius properties of the object, record and array kinds and the (momentum, position, charge) constructors of helix_obj / helix_awk are translated from helix.py on every run (Gen/HelixProps) and proved equal to the model (Props/HelixTie2).",
           K + REAL + "sign of a dr below the rounding error of the position is not compared (unrecoverable in floating point).",
-          "Lean 4 + Mathlib theorems; Float-model correspondence; documented-formula oracle at non-zero pivots", "DESIGN.md §6 C13")
+          "Lean 4 + Mathlib theorems; Float-model correspondence; documented-formula oracle at non-zero pivots; AST translator for the helix properties / constructors + tie theorems; special common pivots through every array constructor; reports read before a move", "DESIGN.md §6 C13")
     claim("C15", "proof",
           "For every word list and selection the parser model returns arrays or an error: never an out-of-bounds access, never out of fuel "
           "(loop bound length+1 always suffices), and a successful decode consumed the buffer; the same definition satisfies parse_encode (C03). "
@@ -94,7 +94,7 @@ def register(claim):
           "Native working-tree reader, installed reader, Python factory (incl. call histories) and all fixture matrix members compared.",
           K + NAT + "dimensions > 46340 (C++ int overflow) unmodelled; IEEE sqrt exact on perfect squares < 2^53.",
           "Lean 4 theorems on translated index expression + hand-written reader model; native ASan build and installed reader as correspondence; "
-          "independent-decode oracle on fixtures", "DESIGN.md §6 C16")
+          "independent-decode oracle on fixtures; content patterns (zero diagonal, one-hot, all zero) so that the expansion cannot depend on the values", "DESIGN.md §6 C16")
     claim("C17", "proof",
           "Over all histories of table updates / process starts / loads / first uses / (interrupted) checks / forced clears: after a complete check no "
           "cache is older than its table; fresh caches untouched; force clears all; interruption only removes files. Content level: for atomic "
@@ -102,33 +102,33 @@ def register(claim):
           "replayed end-to-end on the real package every run).",
           K + "timestamp granularity and concurrent importers are outside the model; numba's two file kinds (index file rewritten per new signature, one data file per signature) are modelled, its naming/locking are not; glob order fixed in the harness.",
           "Lean 4 invariants by induction over operation histories with crash points; real cache_auto_clear on a scratch layout as correspondence; "
-          "end-to-end interpreter scenarios as oracle", "DESIGN.md §6 C17")
+          "end-to-end interpreter scenarios as oracle; package-wide static scan of cached numba kernels that read geometry-table data vs src_cache_list; end-to-end run over every public lookup with both tables replaced (fresh interpreter vs wiped caches)", "DESIGN.md §6 C17")
     claim("C01", "proof",
           "readTObjArray_encode / readEntries_encode: for every element codec that reads exactly its own encoding, every list of objects per event "
           "(incl. empty events), every header variant (new-class tag with name vs class reference, any byte count with the mask bit, referenced bit) the "
           "reader returns the objects in order and stops right after them, entry by entry; processDigi_fields. Model tied three-way on synthetic streams "
           "(Lean / native working-tree build / installed extension with stock readers), by framing every real fixture basket, and member by member "
-          "against uproot's own deserialisation obtained without pybes3.",
+          "against uproot's own deserialisation obtained without pybes3. Bes3CgemClusterColReader: round trip for both class layouts, referenced and unreferenced clusters, version threading across events (Props/C01Cgem). The Python side (digi lifting loops, dispatch, branch / matrix-member tables, factory priorities, factory forms) is translated from root_io.py on every run (Gen/RootPy) and proved equal to the models (Props/RootTie).",
           K + NAT + "stock uproot-custom element readers enter as a contract (read exactly their own encoding); decompression/basket I/O and awkward record "
           "construction are outside the model; the independent decoder cannot read multimap, TRecExtTrack and the streamer-less CGEM cluster class (listed in the evidence).",
           "Lean 4 round-trip theorems on a hand-written byte-level parser model; three-way synthetic correspondence; framing-mode model on real baskets; "
-          "independent-decoder oracle (translation-validation strength for member values on real files)", "DESIGN.md §6 C01")
+          "independent-decoder oracle (translation-validation strength for member values on real files); AST translator for the Python logic of root_io.py + tie theorems; synthetic CGEM cluster streams incl. referenced clusters", "DESIGN.md §6 C01")
     claim("C02", "proof",
           "finalArray_eq_slice: for every basket layout (empty baskets anywhere) and every non-empty interval the model of AsCustom.final_array returns the "
           "slice of the full read; partition invariance; chunks of any size concatenate to the whole; per-basket reader outputs re-based by concatenation "
           "represent the concatenated events; per-event post-processing commutes with trimming. Real final_array/basket_array driven with index-valued and "
-          "re-partitioned real fixture baskets in every delivery order; public API (entry ranges, iterate, concatenate, subsets).",
+          "re-partitioned real fixture baskets in every delivery order; public API (entry ranges, iterate, concatenate, subsets). CGEM cluster collections: keys independent of the basket layout when every basket holds a cluster (or the class has no m_recPositionY), with the recorded finding as a proved witness (Props/C01Cgem::cgem_keys_layout_dependent_witness) and reproduced on the real factory chain on every run (KNOWN-FINDING).",
           K + "uproot's entry-range to basket selection, ak.concatenate and decompression are third-party (exercised, not modelled); fixtures have one basket per "
           "branch, so multi-basket behaviour on real bytes comes from re-partitioning the payload.",
-          "Lean 4 list-algebra theorems on a model of final_array; correspondence against the real method; exhaustive partition x interval testing on fixtures (thorough)",
+          "Lean 4 list-algebra theorems on a model of final_array; correspondence against the real method; exhaustive partition x interval testing on fixtures (thorough); synthetic CGEM cluster baskets through the real factory chain; the same branch from files of different releases in one process",
           "DESIGN.md §6 C02")
     claim("C07", "proof",
           "rebuild (levels t) (flat t) = t for every uniform-depth layout (any depth, empty lists); array-mode pivot change = per-track single-helix result in the "
           "input's nesting and order (hence independent of the other tracks and of the nesting); ufunc attributes act per track; permutation equivariance. "
           "Real helix_awk operations compared per track with helix_obj over generated layouts (depth 1-4, empty events, sliced/indexed views, records), "
-          "pivot forms, error matrices, repeated calls (inputs not modified) and per-track isclose verdicts.",
+          "pivot forms, error matrices, repeated calls (inputs not modified) and per-track isclose verdicts. The per-track pivot change and the per-track properties are the translated source (Props/HelixTie, Props/HelixTie2: object path = array path = model).",
           K + "awkward's own layout transformations are third-party; masked/union layouts are not generated; float results at 1e-9 relative.",
-          "Lean 4 theorems on nested arrays (dependent depth) + single-track model; Lean driver vs _extract_index/flatten; per-track oracle", "DESIGN.md §6 C07")
+          "Lean 4 theorems on nested arrays (dependent depth) + single-track model; Lean driver vs _extract_index/flatten; per-track oracle; AST translators for helix.py + tie theorems; exact half-turn inputs; views re-ordered after construction", "DESIGN.md §6 C07")
     claim("C09", "proof",
           "Every MDC accessor returns the published row (kernel reads the loader global; loader globals equal the npz columns chunk by chunk; same for all EMC "
           "columns incl. corner points); wire ends differ in z; stereo sign = sign of the exact cross product of the end points (doubles decoded exactly), "
@@ -136,7 +136,7 @@ def register(claim):
           "points for every z (reals); private copies for every get/write/lookup history; barrel crystal centres / front centres are the centroids of the stored corner points "
           "within 2^-30 cm in exact rational arithmetic (Props/C09b: fixed-point kernel evaluation over the whole table + soundness proof over Q).",
           K + TR + "float evaluation of the line formula compared at 1e-9.",
-          "Lean 4 kernel evaluation over complete tables with exact IEEE decoding; real-analysis lemma; history model by induction; differential + exact-arithmetic oracle",
+          "Lean 4 kernel evaluation over complete tables with exact IEEE decoding; real-analysis lemma; history model by induction; differential + exact-arithmetic oracle; tables of every library (np / ak / pd) column by column against the published file; kernels really compiled after the hand-out (accessor groups, uint64)",
           "DESIGN.md §6 C09")
     claim("C14", "other",
           "Partial by design: Lean theorems for pybes3's own assembly laws (element-wise kernels preserve nesting and act on the leaves at every depth; the "
@@ -144,13 +144,13 @@ def register(claim):
           "protocol, which is most of what the property quantifies over - is explored: every public function x integer dtypes x container kinds (scalars, "
           "0-d/n-d arrays, awkward flat/jagged/regular/depth-3/empty/sliced/indexed/masked/record field) x option combinations against a leaf-by-leaf reference.",
           K + "numba type dispatch and awkward ufunc protocol are third-party and unmodelled; unknown-type (non-integer) empty arrays are not inputs of the property.",
-          "Lean 4 theorems for the assembly laws + structured per-dtype / per-layout exploration for the dispatch", "DESIGN.md §6 C14, §8")
+          "Lean 4 theorems for the assembly laws + structured per-dtype / per-layout exploration for the dispatch; missing values and depth-3 nesting through the record parsers; dtype history with kernels compiled after a table hand-out (child process, private cache)", "DESIGN.md §6 C14, §8")
     claim("C18", "other",
           "Partial by design: Lean theorem that the lazily announced type equals the eager type for digi collections (naturality of the shared post-"
           "processing w.r.t. the content-to-type map, for every field list incl. clashes) and that the matrix factory's form mirrors its content. "
           "The dask/uproot machinery is explored: every fixture branch that supports lazy reading x steps_per_file x projections, comparing announced, "
-          "computed and eager types and all values.",
+          "computed and eager types and all values. process_digi_subbranch / process_digi_subbranch_form, the dispatch of preprocess_subbranch / preprocess_subbranch_form and the factories' form / content constructors are translated from root_io.py on every run and proved to agree (Props/RootTie: lazy_form_eq_eager_type_py, dispatch_agree, sym_form_mirrors_content_py, tobj_form_mirrors_content_py). m_recCgemClusterCol cannot be read lazily: recorded finding, reproduced on every run.",
           K + "dask graph construction and uproot's positional form-to-buffer mapping are third-party and unmodelled; branches without a form (streamer-less "
           "CGEM clusters) do not support lazy reading.",
-          "Lean 4 naturality theorem on the form/content model + structured exploration of the lazy path", "DESIGN.md §6 C18, §8")
+          "Lean 4 naturality theorem on the form/content model + structured exploration of the lazy path; AST translator for root_io.py + tie theorems", "DESIGN.md §6 C18, §8")
 
